@@ -20,9 +20,20 @@
      p_gp        ExactGP._clear_cache drops the strategy   exact_gp.py:98-100
      p_vs        _VariationalStrategy._clear_cache         _variational_strategy.py:86-87
      p_pop       KISS-GP covar_cache pair is re-keyed by fast_pred_samples  exact_prediction_strategies.py:689-692
+     p_stale     staleness guards for settings that no memo key records:
+                   SGPRPredictionStrategy.is_stale -> ExactGP.__call__ rebuilds the strategy when
+                   sgpr_diagonal_correction differs from the value recorded at construction
+                   (exact_gp.py:305, exact_prediction_strategies.py:790-798);
+                   _VariationalStrategy.__call__ clears the memo when variational_cholesky_jitter
+                   differs from _cache_jitter_val and records it (_variational_strategy.py:328-333)
+     p_restore   ExactGP.get_fantasy_model restores train_inputs / train_targets / likelihood /
+                 prediction_strategy of the SOURCE model in a finally block  exact_gp.py:244-251
 
    A cache entry carries a [tag]: the (parameter version, data version, unkeyed-settings value)
-   it was computed from.  Versions are abstract counters; the harness holds the concrete
+   it was computed from.  The unkeyed-settings value of a configuration is [f_ck fam c]; it only
+   enters the tags of the slots [f_ck_slots fam] whose content depends on it.  The state field
+   [sck] is the value the staleness guard has recorded (strategy._sgpr_diagonal_correction resp.
+   strategy._cache_jitter_val).  Versions are abstract counters; the harness holds the concrete
    snapshot of every version.  [Predict] returns the tags of the entries it consulted: an
    uninterpreted result "f(params, data, settings)".  Definitions only; proofs in
    Proofs/C03_cache.v. *)
@@ -38,10 +49,9 @@ Record entry := mkEntry { e_slot : nat; e_key : nat; e_tag : tag; e_g : gstate }
 Definition cache := list entry.
 
 (* one cache consultation: slot, the key the memo dictionary is indexed by (e.g. the NaN policy
-   for mean_cache, fast_pred_samples for the KISS-GP pair), the value [u_ck] of the
-   content-relevant settings that are NOT part of the dictionary key, and whether the slot holds a
-   single entry that is replaced on a key miss. *)
-Record use := mkUse { u_slot : nat; u_key : nat; u_ck : nat; u_single : bool }.
+   for mean_cache, fast_pred_samples for the KISS-GP pair) and whether the slot holds a single
+   entry that is replaced on a key miss. *)
+Record use := mkUse { u_slot : nat; u_key : nat; u_single : bool }.
 
 Definition STRAT := 0. Definition MEAN := 1. Definition COVAR := 2. Definition KMAT := 3.
 Definition CHOL := 4. Definition VDIST := 5. Definition WISKI := 6. Definition PSEUDO := 7.
@@ -61,20 +71,26 @@ Record family := mkFam {
   f_hook_slots : list nat;            (* the strategy's _memoize_cache (cleared by the backward hook) *)
   f_kernel_slots : list nat;          (* cleared by kernel._clear_cache *)
   f_vs_slots : list nat;              (* cleared by _VariationalStrategy._clear_cache *)
-  f_has_data : bool                   (* set_train_data exists *)
+  f_has_data : bool;                  (* set_train_data exists *)
+  f_ck : nat -> nat;                  (* value, under cfg c, of the content-relevant setting no memo key records *)
+  f_ck_slots : list nat;              (* slots whose content depends on it *)
+  f_ck_drop : list nat;               (* what the staleness guard discards when the recorded value differs *)
+  f_ck_train : bool                   (* the guard also runs (and records) in training-mode calls *)
 }.
 
 Record points := mkPts {
   p_to_train : bool; p_to_eval : bool; p_load : bool; p_setdata : bool; p_hook : bool;
-  p_call : bool; p_kernel : bool; p_gp : bool; p_vs : bool; p_pop : bool }.
-Definition all_on := mkPts true true true true true true true true true true.
+  p_call : bool; p_kernel : bool; p_gp : bool; p_vs : bool; p_pop : bool; p_stale : bool; p_restore : bool }.
+Definition all_on := mkPts true true true true true true true true true true true true.
 
-Record state := mkSt { pv : nat; dv : nat; training : bool; cch : cache }.
+(* [sck]: the settings value recorded by the staleness guard; [lost]: the object has lost its
+   training data / likelihood / strategy (only reachable when p_restore is off) *)
+Record state := mkSt { pv : nat; dv : nat; training : bool; cch : cache; sck : nat; lost : bool }.
 
 (* histories start from a constructed object that has been put in eval mode *)
-Definition init : state := mkSt 0 0 false [].
+Definition init : state := mkSt 0 0 false [] 0 false.
 (* a freshly constructed object holding parameter version v and data version w, in mode tr *)
-Definition fresh (v w : nat) (tr : bool) : state := mkSt v w tr [].
+Definition fresh (v w : nat) (tr : bool) : state := mkSt v w tr [] 0 false.
 
 Inductive op :=
 | OTrain | OEval | OStep | OSetData | OLoad | OFantasy | OPrior | OBackward | OPredict (c : nat).
@@ -95,20 +111,25 @@ Fixpoint lookup_slot (sl : nat) (c : cache) : option entry :=
   | e :: r => if e_slot e =? sl then Some e else lookup_slot sl r
   end.
 
-(* tag of an entry computed now: inherited from the owning object when there is one *)
-Definition new_tag (fam : family) (s : state) (c : cache) (u : use) : tag :=
+Definition mem (x : nat) (l : list nat) : bool := existsb (Nat.eqb x) l.
+
+(* tag of an entry computed now under unkeyed-settings value ck: inherited from the owning object
+   when there is one *)
+Definition own_tag (fam : family) (s : state) (ck : nat) (sl : nat) : tag :=
+  mkTag (pv s) (if f_ddep fam sl then dv s else 0) (if mem sl (f_ck_slots fam) then ck else 0).
+Definition new_tag (fam : family) (s : state) (ck : nat) (c : cache) (u : use) : tag :=
   match f_parent fam (u_slot u) with
   | Some ps =>
       match lookup_slot ps c with
       | Some pe => e_tag pe
-      | None => mkTag (pv s) (if f_ddep fam (u_slot u) then dv s else 0) (u_ck u)
+      | None => own_tag fam s ck (u_slot u)
       end
-  | None => mkTag (pv s) (if f_ddep fam (u_slot u) then dv s else 0) (u_ck u)
+  | None => own_tag fam s ck (u_slot u)
   end.
 
-Definition consult (pts : points) (fam : family) (s : state) (g : gstate) (c : cache) (u : use)
+Definition consult (pts : points) (fam : family) (s : state) (ck : nat) (g : gstate) (c : cache) (u : use)
   : cache * entry :=
-  let fresh_e := mkEntry (u_slot u) (u_key u) (new_tag fam s c u) g in
+  let fresh_e := mkEntry (u_slot u) (u_key u) (new_tag fam s ck c u) g in
   if u_single u then
     match lookup_slot (u_slot u) c with
     | Some e =>
@@ -122,13 +143,13 @@ Definition consult (pts : points) (fam : family) (s : state) (g : gstate) (c : c
     | None => (fresh_e :: c, fresh_e)
     end.
 
-Fixpoint consult_all (pts : points) (fam : family) (s : state) (g : gstate) (c : cache)
+Fixpoint consult_all (pts : points) (fam : family) (s : state) (ck : nat) (g : gstate) (c : cache)
   (us : list use) : cache * list entry :=
   match us with
   | [] => (c, [])
   | u :: r =>
-      let '(c1, e) := consult pts fam s g c u in
-      let '(c2, es) := consult_all pts fam s g c1 r in
+      let '(c1, e) := consult pts fam s ck g c u in
+      let '(c2, es) := consult_all pts fam s ck g c1 r in
       (c2, e :: es)
   end.
 
@@ -139,19 +160,31 @@ Definition module_slots (pts : points) (fam : family) : list nat :=
 Definition clear_modules (pts : points) (fam : family) (c : cache) : cache :=
   drop (module_slots pts fam) c.
 
-Definition set_cache (s : state) (c : cache) : state := mkSt (pv s) (dv s) (training s) c.
-Definition bump_pv (s : state) : state := mkSt (S (pv s)) (dv s) (training s) (cch s).
+Definition set_cache (s : state) (c : cache) : state := mkSt (pv s) (dv s) (training s) c (sck s) (lost s).
+Definition set_cache_ck (s : state) (c : cache) (k : nat) : state := mkSt (pv s) (dv s) (training s) c k (lost s).
+Definition bump_pv (s : state) : state := mkSt (S (pv s)) (dv s) (training s) (cch s) (sck s) (lost s).
+Definition set_mode (s : state) (tr : bool) (c : cache) : state := mkSt (pv s) (dv s) tr c (sck s) (lost s).
 
-(* a non-prior call of the object: (state after, consulted entries) *)
+(* a non-prior call of the object under configuration c: (state after, consulted entries).
+   Eval mode: the staleness guard first compares the recorded settings value with the current one
+   (a differing value discards [f_ck_drop]) and records the current one. *)
 Definition call (pts : points) (fam : family) (s : state) (g : gstate) (c : nat)
   : state * list entry :=
+  let ck := f_ck fam c in
   if training s then
     let c1 := if p_call pts && p_vs pts then drop (f_vs_slots fam) (cch s) else cch s in
-    let '(c2, es) := consult_all pts fam s GNone c1 (f_train_uses fam) in
+    let k1 := if p_stale pts && f_ck_train fam then ck else sck s in
+    let '(c2, es) := consult_all pts fam s ck GNone c1 (f_train_uses fam) in
+    (set_cache_ck s c2 k1, es)
+  else if lost s then
+    (* train_inputs is None: ExactGP.__call__ returns the prior *)
+    let '(c2, es) := consult_all pts fam s ck GNone (cch s) (f_prior_uses fam) in
     (set_cache s c2, es)
   else
-    let '(c2, es) := consult_all pts fam s g (cch s) (f_uses fam c) in
-    (set_cache s c2, es).
+    let c1 := if p_stale pts && negb (sck s =? ck) then drop (f_ck_drop fam) (cch s) else cch s in
+    let k1 := if p_stale pts then ck else sck s in
+    let '(c2, es) := consult_all pts fam s ck g c1 (f_uses fam c) in
+    (set_cache_ck s c2 k1, es).
 
 Definition is_freed (e : entry) : bool := match e_g e with GFreed => true | _ => false end.
 Definition is_live (e : entry) : bool := match e_g e with GLive => true | _ => false end.
@@ -171,10 +204,10 @@ Definition step (pts : points) (fam : family) (s : state) (o : op) : state * (na
   match o with
   | OTrain =>
       let c := if p_to_train pts then clear_modules pts fam (cch s) else cch s in
-      (mkSt (pv s) (dv s) true c, (ST_OK, []))
+      (set_mode s true c, (ST_OK, []))
   | OEval =>
       let c := if training s && p_to_eval pts then clear_modules pts fam (cch s) else cch s in
-      (mkSt (pv s) (dv s) false c, (ST_OK, []))
+      (set_mode s false c, (ST_OK, []))
   | OStep =>
       if training s then
         let '(s1, es) := call pts fam s GNone 0 in
@@ -183,11 +216,11 @@ Definition step (pts : points) (fam : family) (s : state) (o : op) : state * (na
   | OSetData =>
       if f_has_data fam then
         let c := if p_setdata pts then drop (f_strat_slots fam) (cch s) else cch s in
-        (mkSt (pv s) (S (dv s)) (training s) c, (ST_OK, []))
+        (mkSt (pv s) (S (dv s)) (training s) c (sck s) (lost s), (ST_OK, []))
       else (s, (ST_INADM, []))
   | OLoad =>
       let c := if p_load pts then clear_modules pts fam (cch s) else cch s in
-      (mkSt (S (pv s)) (dv s) (training s) c, (ST_OK, []))
+      (mkSt (S (pv s)) (dv s) (training s) c (sck s) (lost s), (ST_OK, []))
   | OFantasy =>
       (* ExactGP.get_fantasy_model needs an existing prediction strategy (in training mode there
          is none: every switch to training mode drops it) *)
@@ -198,14 +231,20 @@ Definition step (pts : points) (fam : family) (s : state) (o : op) : state * (na
          filled by a call made with gradients enabled) *)
       let copyable := negb (existsb (fun e => in_slots (f_fant_copy fam) e &&
                                       match e_g e with GNone => false | _ => true end) (cch s)) in
-      if present && f_fant_ok fam && copyable then
-        let '(c2, es) := consult_all pts fam s GNone (cch s) (f_fant_uses fam) in
-        (set_cache s c2, (ST_OK, map obs es))
+      if present && f_fant_ok fam then
+        if copyable then
+          let '(c2, es) := consult_all pts fam s (f_ck fam 0) GNone (cch s) (f_fant_uses fam) in
+          (set_cache s c2, (ST_OK, map obs es))
+        else
+          (* deepcopy raised while train_inputs / train_targets / likelihood / prediction_strategy
+             of the source were temporarily None: restored by the finally block (p_restore) *)
+          if p_restore pts then (s, (ST_ERR, []))
+          else (mkSt (pv s) (dv s) (training s) (drop (f_strat_slots fam) (cch s)) (sck s) true, (ST_ERR, []))
       else (s, (ST_ERR, []))
   | OPrior =>
       if training s then (s, (ST_OK, []))
       else
-        let '(c2, es) := consult_all pts fam s GNone (cch s) (f_prior_uses fam) in
+        let '(c2, es) := consult_all pts fam s (f_ck fam 0) GNone (cch s) (f_prior_uses fam) in
         (set_cache s c2, (ST_OK, map obs es))
   | OBackward =>
       let '(s1, es) := call pts fam s GLive 0 in
@@ -274,7 +313,7 @@ Fixpoint admissible (pts : points) (fam : family) (s : state) (h : list op) : bo
 
 (* ---- the families ---------------------------------------------------------------------- *)
 
-Definition U (sl k : nat) := mkUse sl k 0 false.
+Definition U (sl k : nat) := mkUse sl k false.
 
 (* exact GP, DefaultPredictionStrategy.
    cfg 0 default; 1 fast_pred_var; 2 observation_nan_policy('mask'); 3 eager kernels *)
@@ -290,7 +329,8 @@ Definition fam_exact : family := {|
   f_parent := fun sl => if (sl =? MEAN) || (sl =? COVAR) then Some STRAT else None;
   f_ddep := fun sl => (sl =? STRAT) || (sl =? MEAN) || (sl =? COVAR);
   f_strat_slots := [STRAT; MEAN; COVAR]; f_hook_slots := [MEAN; COVAR];
-  f_kernel_slots := []; f_vs_slots := []; f_has_data := true |}.
+  f_kernel_slots := []; f_vs_slots := []; f_has_data := true;
+  f_ck := fun _ => 0; f_ck_slots := []; f_ck_drop := []; f_ck_train := false |}.
 
 (* KISS-GP: GridInterpolationKernel + InterpolatedPredictionStrategy.
    cfg 0 default; 1 fast_pred_var; 2 fast_pred_var + fast_pred_samples; 3 skip_posterior_variances.
@@ -298,8 +338,8 @@ Definition fam_exact : family := {|
 Definition fam_kiss : family := {|
   f_ncfg := 4;
   f_uses := fun c => match c with
-                     | 1 => [U KMAT 0; U STRAT 0; U MEAN 0; mkUse COVAR 0 0 true]
-                     | 2 => [U KMAT 0; U STRAT 0; U MEAN 0; mkUse COVAR 1 0 true]
+                     | 1 => [U KMAT 0; U STRAT 0; U MEAN 0; mkUse COVAR 0 true]
+                     | 2 => [U KMAT 0; U STRAT 0; U MEAN 0; mkUse COVAR 1 true]
                      | _ => [U KMAT 0; U STRAT 0; U MEAN 0]
                      end;
   f_train_uses := []; f_prior_uses := [U KMAT 0];
@@ -307,17 +347,18 @@ Definition fam_kiss : family := {|
   f_parent := fun sl => if (sl =? MEAN) || (sl =? COVAR) || (sl =? WISKI) then Some STRAT else None;
   f_ddep := fun sl => (sl =? STRAT) || (sl =? MEAN) || (sl =? COVAR) || (sl =? WISKI);
   f_strat_slots := [STRAT; MEAN; COVAR; WISKI]; f_hook_slots := [MEAN; COVAR; WISKI];
-  f_kernel_slots := [KMAT]; f_vs_slots := []; f_has_data := true |}.
+  f_kernel_slots := [KMAT]; f_vs_slots := []; f_has_data := true;
+  f_ck := fun _ => 0; f_ck_slots := []; f_ck_drop := []; f_ck_train := false |}.
 
 (* SGPR: InducingPointKernel + SGPRPredictionStrategy.
    cfg 0 default; 1 fast_pred_var; 2 nan policy 'mask'; 3 sgpr_diagonal_correction(False):
-   the train-train covariance the strategy holds is evaluated under the setting active when it
-   was first evaluated, and no dictionary key records it (u_ck = 1). *)
+   the train-train covariance the strategy holds (and mean_cache / covar_cache derived from it)
+   is evaluated under the setting active when the strategy was built; no dictionary key records
+   it (f_ck 3 = 1), the strategy records it and is rebuilt by ExactGP.__call__ when it differs. *)
 Definition fam_sgpr : family := {|
   f_ncfg := 4;
   f_uses := fun c => match c with
                      | 2 => [U KMAT 0; U STRAT 0; U MEAN 1; U COVAR 0]
-                     | 3 => [U KMAT 0; mkUse STRAT 0 1 false; mkUse MEAN 0 1 false; mkUse COVAR 0 1 false]
                      | _ => [U KMAT 0; U STRAT 0; U MEAN 0; U COVAR 0]
                      end;
   f_train_uses := []; f_prior_uses := [U KMAT 0];
@@ -325,24 +366,27 @@ Definition fam_sgpr : family := {|
   f_parent := fun sl => if (sl =? MEAN) || (sl =? COVAR) then Some STRAT else None;
   f_ddep := fun sl => (sl =? STRAT) || (sl =? MEAN) || (sl =? COVAR);
   f_strat_slots := [STRAT; MEAN; COVAR]; f_hook_slots := [MEAN; COVAR];
-  f_kernel_slots := [KMAT]; f_vs_slots := []; f_has_data := true |}.
+  f_kernel_slots := [KMAT]; f_vs_slots := []; f_has_data := true;
+  f_ck := fun c => match c with 3 => 1 | _ => 0 end;
+  f_ck_slots := [STRAT; MEAN; COVAR]; f_ck_drop := [STRAT; MEAN; COVAR]; f_ck_train := false |}.
 
 (* variational GP (VariationalStrategy / UnwhitenedVariationalStrategy, any distribution).
    cfg 0 default; 1 skip_posterior_variances; 2 eager kernels;
    3 variational_cholesky_jitter(non-default): the cached Cholesky factor is computed with the
-   jitter active at the first call and cached with ignore_args=True (u_ck = 1). *)
+   jitter active when it was first needed and cached with ignore_args=True (f_ck 3 = 1);
+   __call__ compares the jitter with _cache_jitter_val, clears the memo when it differs, and
+   records it (also in training mode, where the memo is cleared anyway). *)
 Definition fam_var (fant : bool) : family := {|
   f_ncfg := 4;
-  f_uses := fun c => match c with
-                     | 3 => [U VDIST 0; mkUse CHOL 0 1 false]
-                     | _ => [U VDIST 0; U CHOL 0]
-                     end;
+  f_uses := fun _ => [U VDIST 0; U CHOL 0];
   f_train_uses := [U VDIST 0; U CHOL 0]; f_prior_uses := [];
   f_fant_uses := [U VDIST 0; U PSEUDO 0]; f_fant_req := None; f_fant_ok := fant; f_fant_copy := [];
   f_parent := fun _ => None;
   f_ddep := fun _ => false;
   f_strat_slots := []; f_hook_slots := [];
-  f_kernel_slots := []; f_vs_slots := [VDIST; CHOL; PSEUDO]; f_has_data := false |}.
+  f_kernel_slots := []; f_vs_slots := [VDIST; CHOL; PSEUDO]; f_has_data := false;
+  f_ck := fun c => match c with 3 => 1 | _ => 0 end;
+  f_ck_slots := [CHOL]; f_ck_drop := [VDIST; CHOL; PSEUDO]; f_ck_train := true |}.
 
 Definition family_of (k : nat) : family :=
   match k with
@@ -350,18 +394,21 @@ Definition family_of (k : nat) : family :=
   end.
 
 Definition points_without (k : nat) : points :=
+  let T := true in let F := false in
   match k with
-  | 1 => mkPts false true true true true true true true true true
-  | 2 => mkPts true false true true true true true true true true
-  | 3 => mkPts true true false true true true true true true true
-  | 4 => mkPts true true true false true true true true true true
-  | 5 => mkPts true true true true false true true true true true
-  | 6 => mkPts true true true true true false true true true true
-  | 7 => mkPts true true true true true true false true true true
-  | 8 => mkPts true true true true true true true false true true
-  | 9 => mkPts true true true true true true true true false true
-  | 10 => mkPts true true true true true true true true true false
-  | 11 => mkPts false false true true true true true true true true   (* Module.train override deleted *)
+  | 1 => mkPts F T T T T T T T T T T T
+  | 2 => mkPts T F T T T T T T T T T T
+  | 3 => mkPts T T F T T T T T T T T T
+  | 4 => mkPts T T T F T T T T T T T T
+  | 5 => mkPts T T T T F T T T T T T T
+  | 6 => mkPts T T T T T F T T T T T T
+  | 7 => mkPts T T T T T T F T T T T T
+  | 8 => mkPts T T T T T T T F T T T T
+  | 9 => mkPts T T T T T T T T F T T T
+  | 10 => mkPts T T T T T T T T T F T T
+  | 11 => mkPts F F T T T T T T T T T T   (* Module.train override deleted *)
+  | 12 => mkPts T T T T T T T T T T F T   (* no staleness guards (the code before fixes 2c041f6 / 4d5d0c3) *)
+  | 13 => mkPts T T T T T T T T T T T F   (* get_fantasy_model without the finally block (before fix 5e27225) *)
   | _ => all_on
   end.
 
